@@ -88,6 +88,7 @@ class Kernel(object):
         self.timers = []
         self.tseq = 0
         self.errors = []  # uncaught exceptions in tasks: (task name, exception, traceback text)
+        self.on_switch = None  # callback(task or None) just before the baton moves (process-global swapping)
         if policy == "pct":
             self.pct_points = sorted(self.rng.randrange(1, pct_len) for _ in range(pct_depth))
         else:
@@ -237,6 +238,8 @@ class Kernel(object):
         if nxt is None:
             self.cur = None
             self.cur_ident = None
+            if self.on_switch is not None:
+                self.on_switch(None)
             self.main.release()
             if me is not None and me.state != D:
                 me.sem.acquire()
@@ -248,6 +251,8 @@ class Kernel(object):
         self.switches += 1
         self.cur = nxt
         self.cur_ident = nxt.ident
+        if self.on_switch is not None:
+            self.on_switch(nxt)
         nxt.sem.release()
         if me is not None and me.state != D:
             me.sem.acquire()
@@ -273,6 +278,8 @@ class Kernel(object):
         nxt.state = R
         self.cur = nxt
         self.cur_ident = nxt.ident
+        if self.on_switch is not None:
+            self.on_switch(nxt)
         nxt.sem.release()
 
     def _resume_check(self, me):
